@@ -89,6 +89,11 @@ fn render_rej(dir: &Path, target: &Path, shim: &Path, rc: &RunCfg) -> Result<Str
         if v["reason"] != "compiler-message" {
             continue;
         }
+        // only the generated crate's own diagnostics (cargo also replays cached warnings of
+        // path dependencies such as o2o-impl)
+        if !v["package_id"].as_str().map(|p| p.contains("tier-r")).unwrap_or(false) {
+            continue;
+        }
         let m = &v["message"];
         let sp = &m["spans"][0];
         r.push_str(&format!("{}|{}|{}:{}\n", m["level"].as_str().unwrap_or("?"), m["message"].as_str().unwrap_or("?"), sp["line_start"], sp["column_start"]));
@@ -121,7 +126,11 @@ fn setup_crate(dir: &Path, repo: &Path, backend: Backend, items: &[String]) -> R
     );
     write_if_changed(&dir.join("Cargo.toml"), &manifest);
     if !dir.join("Cargo.lock").exists() {
-        std::fs::copy(repo.join("Cargo.lock"), dir.join("Cargo.lock")).map_err(|e| format!("copy Cargo.lock: {}", e))?;
+        // Cargo.lock is not tracked by the repository: a scratch worktree has none
+        let lock = if repo.join("Cargo.lock").exists() { repo.join("Cargo.lock") } else { Path::new("/repo/Cargo.lock").to_path_buf() };
+        if lock.exists() {
+            std::fs::copy(&lock, dir.join("Cargo.lock")).map_err(|e| format!("copy Cargo.lock: {}", e))?;
+        }
     }
     write_if_changed(&dir.join("src/lib.rs"), &crate_source(items));
     Ok(())
@@ -181,17 +190,36 @@ fn runcfg_json(r: &RunCfg) -> Value {
     json!({"entropy_seed": r.entropy_seed.to_string(), "extra_env": r.extra_env.iter().map(|(k, v)| json!([k, v])).collect::<Vec<_>>()})
 }
 
+/// Build the dependencies of the tier-R crates (o2o, o2o-impl, the o2o-macros dylib, syn ...)
+/// ahead of time, without the shim.  Part of `./check build`.
+pub fn prepare(cfg: &Cfg) -> Result<(), String> {
+    let base = cfg.build_dir.join("rustc-tier");
+    for backend in [Backend::Syn1, Backend::Syn2] {
+        let dir = base.join(format!("{}-prep", backend.tag()));
+        let target = base.join(format!("target-{}", backend.tag()));
+        setup_crate(&dir, &cfg.repo, backend, &["#[map(PrepDto)]\npub struct Prep { pub x: i32 }\npub struct PrepDto { pub x: i32 }\n".to_string()])?;
+        let out = cargo_cmd(&dir, &target, None).args(["build", "--offline", "-q"]).output().map_err(|e| format!("cargo: {}", e))?;
+        if !out.status.success() {
+            return Err(format!("tier-R dependency build failed ({}): {}", backend.tag(), String::from_utf8_lossy(&out.stderr).lines().filter(|l| l.starts_with("error")).take(5).collect::<Vec<_>>().join(" / ")));
+        }
+    }
+    Ok(())
+}
+
 pub fn run(cfg: &Cfg, corpus: &Corpus) -> Result<TierResult, String> {
     let t0 = std::time::Instant::now();
     let sel = select_items(cfg, corpus)?;
     let shim = cfg.build_dir.join("simhost-min.so");
     let base = cfg.build_dir.join("rustc-tier");
-    let n_runs: usize = std::env::var("SIM_RUSTC_RUNS").ok().and_then(|s| s.parse().ok()).unwrap_or(8);
+    let thorough = cfg.tier == "thorough";
+    let n_runs: usize = std::env::var("SIM_RUSTC_RUNS").ok().and_then(|s| s.parse().ok()).unwrap_or(if thorough { 8 } else { 3 });
     let runs = plan_runs(cfg.seed, n_runs);
     let mut summary = Vec::new();
     let mut violation = None;
     let mut compiles = 0;
-    for backend in [Backend::Syn1, Backend::Syn2] {
+    // quick: one back-end, chosen by the seed; thorough: both
+    let backends: Vec<Backend> = if thorough { vec![Backend::Syn1, Backend::Syn2] } else if cfg.seed % 2 == 0 { vec![Backend::Syn1] } else { vec![Backend::Syn2] };
+    for backend in backends {
         for (kind, items) in [("rej", &sel.rej), ("acc", &sel.acc)] {
             if items.is_empty() {
                 continue;
